@@ -87,13 +87,53 @@ func c20Precedence(p *Prog, r *Report) {
 	}
 	// (1) initialised from defaultConfig
 	defObj := fi.Pkg.Types.Scope().Lookup("defaultConfig")
+	// the lineage of the returned value: variables whose whole value is copied into it (fromFile -> base through
+	// the parameter of a helper, conf := fromFile): the configuration travels by value through them
+	lineage := map[types.Object]bool{conf: true}
+	type copyEdge struct {
+		node     int
+		dst, src types.Object
+	}
+	var copies []copyEdge
+	for changed := true; changed; {
+		changed = false
+		for _, n := range f.Nodes {
+			as, ok := n.Ast.(*ast.AssignStmt)
+			if !ok || len(as.Lhs) != len(as.Rhs) {
+				continue
+			}
+			for i, l := range as.Lhs {
+				lo, ro := objOf(info, l), objOf(info, as.Rhs[i])
+				if lo == nil || ro == nil || !lineage[lo] || ro == defObj || lo == ro {
+					continue
+				}
+				if rv, isVar := ro.(*types.Var); !isVar || rv.IsField() || !types.Identical(rv.Type(), lo.Type()) {
+					continue
+				}
+				if !lineage[ro] {
+					lineage[ro] = true
+					changed = true
+				}
+			}
+		}
+	}
+	for _, n := range f.Nodes {
+		if as, ok := n.Ast.(*ast.AssignStmt); ok && len(as.Lhs) == len(as.Rhs) {
+			for i, l := range as.Lhs {
+				lo, ro := objOf(info, l), objOf(info, as.Rhs[i])
+				if lo != nil && ro != nil && lo != ro && lineage[lo] && lineage[ro] {
+					copies = append(copies, copyEdge{n.ID, lo, ro})
+				}
+			}
+		}
+	}
 	var inits []int
 	for _, n := range f.Nodes {
 		if n.Ast == nil {
 			continue
 		}
 		for _, o := range assignedObjs(info, n.Ast) {
-			if o != conf {
+			if !lineage[o] {
 				continue
 			}
 			ok := false
@@ -101,6 +141,21 @@ func c20Precedence(p *Prog, r *Report) {
 			case *ast.AssignStmt:
 				if len(s.Rhs) == 1 && objOf(info, s.Rhs[0]) == defObj && defObj != nil {
 					ok = true
+				}
+				// a copy inside the lineage, or a parallel binding that hands defaultConfig to a helper
+				if len(s.Lhs) == len(s.Rhs) {
+					for i, l := range s.Lhs {
+						if objOf(info, l) != o {
+							continue
+						}
+						if ro := objOf(info, s.Rhs[i]); ro != nil && (ro == defObj || lineage[ro]) {
+							ok = true
+							if ro != defObj {
+								ok = true
+								goto copied
+							}
+						}
+					}
 				}
 			case *ast.DeclStmt:
 				ast.Inspect(s, func(x ast.Node) bool {
@@ -115,6 +170,9 @@ func c20Precedence(p *Prog, r *Report) {
 			} else {
 				r.Viol("C20.a", kParseConfig+"#defaults", p.pos(n.Ast), "the returned configuration is (re)assigned from something other than defaultConfig: settings absent from file and environment lose their documented default")
 			}
+			continue
+		copied:
+			// a copy of another member of the lineage is not an initialisation: the source carries the defaults
 		}
 	}
 	decodeKeys := []string{"(*gopkg.in/yaml.v2.Decoder).Decode", "gopkg.in/yaml.v2.Unmarshal", "gopkg.in/yaml.v2.UnmarshalStrict"}
@@ -141,8 +199,14 @@ func c20Precedence(p *Prog, r *Report) {
 	for _, d := range dec {
 		ok := false
 		for _, a := range d.Call.Args {
-			if u, isU := ast.Unparen(a).(*ast.UnaryExpr); isU && u.Op == token.AND && objOf(info, u.X) == conf {
+			if u, isU := ast.Unparen(a).(*ast.UnaryExpr); isU && u.Op == token.AND && lineage[objOf(info, u.X)] {
 				ok = true
+				// decoded before the value is copied on: a Decode after the copy would be lost
+				for _, ce := range copies {
+					if ce.src == objOf(info, u.X) && f.ReachableAfter(ce.node, map[int]bool{d.Node: true}, nil) {
+						ok = false
+					}
+				}
 			}
 			// inside a helper that was handed &conf: the pointer parameter names the same storage
 			if conf != nil && f.CanonPath(a) == objID(conf) {
@@ -157,8 +221,14 @@ func c20Precedence(p *Prog, r *Report) {
 	}
 	for _, e := range env {
 		ok := false
-		if sel, isSel := e.Call.Fun.(*ast.SelectorExpr); isSel && objOf(info, sel.X) == conf {
+		if sel, isSel := e.Call.Fun.(*ast.SelectorExpr); isSel && lineage[objOf(info, sel.X)] {
 			ok = true
+			// applied before the value is copied on
+			for _, ce := range copies {
+				if ce.src == objOf(info, sel.X) && f.ReachableAfter(ce.node, map[int]bool{e.Node: true}, nil) {
+					ok = false
+				}
+			}
 		}
 		r.Check(ok, "C20.a", kParseConfig+"#env-target", p.pos(e.Call), "ParseEnv applied to the returned value", "ParseEnv is applied to a different value than the one returned")
 	}
@@ -310,6 +380,7 @@ type envClause struct {
 	errObj types.Object            // helper that also parses: (value, ok, err) -- the error variable of the clause
 	setter *ast.CallExpr           // h(NAME, &recv.Field): the helper looks the variable up, parses it and stores through the pointer
 	stmt   ast.Stmt                // the statement holding the setter call
+	pre    *ast.AssignStmt         // v, ok := os.LookupEnv(NAME) as a statement of its own, right before the if that tests it
 }
 
 // at is the syntax the clause is reported at.
@@ -435,6 +506,59 @@ func c20Table(p *Prog, r *Report) {
 			})
 			clauses = append(clauses, cl)
 			clauseFns[fi.Key] = true
+			return true
+		})
+	}
+	// the lookup as a statement of its own, tested by the if that follows: v, ok := os.LookupEnv(NAME); if ok && v != "" {..}
+	for _, fi := range envFuncs {
+		ast.Inspect(fi.Decl.Body, func(x ast.Node) bool {
+			blk, ok := x.(*ast.BlockStmt)
+			if !ok {
+				return true
+			}
+			for i, st := range blk.List {
+				as, ok := st.(*ast.AssignStmt)
+				if !ok || len(as.Rhs) != 1 || i+1 >= len(blk.List) {
+					continue
+				}
+				c, ok := as.Rhs[0].(*ast.CallExpr)
+				if !ok || len(c.Args) != 1 {
+					continue
+				}
+				var cl *envClause
+				name, okc := constStr(info, c.Args[0])
+				switch {
+				case isFunc(info, c, "os", "LookupEnv") && len(as.Lhs) == 2:
+					cl = &envClause{fn: fi, envVar: name, envObj: objOf(info, as.Lhs[0]), okObj: objOf(info, as.Lhs[1]), fields: map[*types.Var]ast.Node{}, pre: as}
+				case isFunc(info, c, "os", "Getenv") && len(as.Lhs) == 1:
+					cl = &envClause{fn: fi, envVar: name, envObj: objOf(info, as.Lhs[0]), fields: map[*types.Var]ast.Node{}, pre: as}
+				default:
+					continue
+				}
+				ifs, ok := blk.List[i+1].(*ast.IfStmt)
+				if !ok || ifs.Init != nil || !(usesObj(info, ifs.Cond, cl.envObj) || (cl.okObj != nil && usesObj(info, ifs.Cond, cl.okObj))) {
+					continue
+				}
+				if !okc {
+					r.Viol("C20.b", fi.Key+"#lookup", p.pos(c), "environment variable name is not a constant")
+					continue
+				}
+				cl.ifs = ifs
+				ast.Inspect(ifs.Body, func(y ast.Node) bool {
+					if a, ok := y.(*ast.AssignStmt); ok {
+						for _, l := range a.Lhs {
+							if sel, ok := l.(*ast.SelectorExpr); ok {
+								if fv, ok := info.Uses[sel.Sel].(*types.Var); ok && fv.IsField() {
+									cl.fields[fv] = a
+								}
+							}
+						}
+					}
+					return true
+				})
+				clauses = append(clauses, cl)
+				clauseFns[fi.Key] = true
+			}
 			return true
 		})
 	}
@@ -611,7 +735,10 @@ func c20Table(p *Prog, r *Report) {
 				}
 			}
 			for _, n := range ff.Nodes {
-				if cl.ifs != nil && n.Ast == cl.ifs.Init {
+				if cl.ifs != nil && cl.ifs.Init != nil && n.Ast == cl.ifs.Init {
+					initNode = append(initNode, n.ID)
+				}
+				if cl.pre != nil && n.Ast == ast.Node(cl.pre) {
 					initNode = append(initNode, n.ID)
 				}
 			}
@@ -719,9 +846,12 @@ func c20ExecClause(p *Prog, cl *envClause, field string, present, empty bool) (a
 				panic(rec)
 			}
 		}()
-		if cl.setter != nil {
+		switch {
+		case cl.setter != nil:
 			env.execBlock([]ast.Stmt{cl.stmt})
-		} else {
+		case cl.pre != nil:
+			env.execBlock([]ast.Stmt{cl.pre, cl.ifs})
+		default:
 			env.execBlock([]ast.Stmt{cl.ifs})
 		}
 	}()
@@ -917,7 +1047,8 @@ func c20Valid(p *Prog, r *Report) {
 		return
 	}
 	info := fi.Pkg.TypesInfo
-	f := p.FlatOf(fi)
+	// (a step of the validation may be a method of its own: s.raiseDirCount())
+	f := p.FlatInl(fi)
 	var recv types.Object
 	if fi.Decl.Recv != nil && len(fi.Decl.Recv.List) == 1 && len(fi.Decl.Recv.List[0].Names) == 1 {
 		recv = info.Defs[fi.Decl.Recv.List[0].Names[0]]
